@@ -292,12 +292,21 @@ def run(ctx):
                 if rc < 0 or b'goroutine ' in err or b'panic:' in err:
                     ctx.problem('oracle', '`%s` with a malformed configuration file (%s) ends with status %d: %s' % (' '.join(argv), where, rc, err.decode('utf-8', 'replace')[:200]), None,
                                 {'config': cfgtext[:200].decode('utf-8', 'replace'), 'argv': a}, signature='panic:config')
-    for argv in (['lint'], ['report', 'element-total'], ['summary'], ['report'], ['csv'], ['gen'], ['reg', 'x', 'y'], ['lint', 'a', 'b'], ['summary', 'today', 'extra'], ['nosuch'], ['reg', '--nosuch'], ['--nosuch', 'reg'], []):
+    for argv in (['lint'], ['report', 'element-total'], ['summary'], ['report'], ['csv'], ['gen'], ['reg', 'x', 'y'], ['lint', 'a', 'b'], ['summary', 'today', 'extra'], ['nosuch'], ['reg', '--nosuch'], ['--nosuch', 'reg'], [],
+                 ['--maxdepth', 'abc', 'reg'], ['--no-colour', 'reg'], ['--maxdepth', 'abc', 'bal'], ['-x', 'csv', 'log'], ['reg', '--begin'], ['--date-format'], ['bal', '-e'],
+                 ['--maxdepth', '1.5', 'report', 'totals'], ['--nosuch=1', 'stats'], ['print', '--nosuch'], ['csv', 'log', '--nosuch'], ['lint', '--nosuch', 'log.yaml']):
         rc, out, err = core.run_real_binary(binary, ['--today', '2021/01/28'] + argv, files)
         n += 1
         ctx.count('real-binary:arguments rc=%d' % rc)
         if rc < 0 or b'goroutine ' in err or b'panic:' in err:
             ctx.problem('oracle', '`%s` (missing or surplus argument) ends with status %d: %s' % (' '.join(argv), rc, err.decode('utf-8', 'replace')[:200]), None, {'argv': argv}, signature='panic:arguments')
+        elif rc == 0 and not out.strip() and (any(a.startswith('-') and ('nosuch' in a or a in ('-x', '--no-colour')) for a in argv) or 'abc' in argv or '1.5' in argv
+                                              or argv[-1] in ('--begin', '--date-format', '-e')):
+            # an unknown flag, a value that is no number, a flag without its value: "either a report or an error message and a
+            # non-zero exit status" - an empty standard output with status 0 is neither (round t: a usage-error hook that returned
+            # nil).  (An empty report is a report: `summary today` on a day without entries prints nothing and succeeds.)
+            ctx.problem('oracle', '`%s` is no valid command line, yet it ends with status 0 and prints nothing on standard output (stderr: %s)' % (' '.join(argv), err.decode('utf-8', 'replace')[:160]), None,
+                        {'argv': argv}, signature='silent-success:arguments')
     if core.SCRATCH_UID:
         try:
             cgobin = core.build_go(False, cgo=True)
